@@ -133,7 +133,9 @@ Ints == << GInt(FALSE, 0, FALSE, 0, FALSE, <<>>, "plain"),
            GInt(TRUE, 0 - 5, TRUE, 5, FALSE, Named2, "plain"),     \* INTEGER { a(1), b(-2) } (-5..5)
            GInt(FALSE, 0, FALSE, 0, FALSE, Named2, "plain"),
            GInt(TRUE, 0, TRUE, 65535, FALSE, <<>>, "plain"),
-           GInt(TRUE, 3, TRUE, 3, FALSE, <<>>, "plain") >>
+           GInt(TRUE, 3, TRUE, 3, FALSE, <<>>, "plain"),
+           GInt(FALSE, 0, FALSE, 0, TRUE, <<>>, "zeroMax"),        \* (0..MAX,...): extensible without a finite bound
+           GInt(FALSE, 0, FALSE, 0, TRUE, <<>>, "minMax") >>       \* (MIN..MAX,...)
 Enums == << GEnum(<< <<"v1", FALSE, 0>>, <<"v2", FALSE, 0>> >>, 0 - 1),
             GEnum(<< <<"v1", FALSE, 0>>, <<"v2", FALSE, 0>> >>, 1),                       \* { v1, v2, ... }
             GEnum(<< <<"v1", FALSE, 0>>, <<"v2", FALSE, 0>>, <<"v3", FALSE, 0>> >>, 0),   \* { v1, ..., v2, v3 }
